@@ -103,6 +103,31 @@ def smul (n : Nat) (P : WPt) : WPt :=
 (at most two digits). -/
 def u128OfDigits (s : Nat) : Nat := ((s / 2 ^ 64) % 2 ^ 64) * 2 ^ 64 + s % 2 ^ 64
 
+/-- `BigUint::to_u64_digits`: little-endian base-`2^64` digits, none for `0` (fuel = a bound on
+the number of digits). -/
+def u64Digits : Nat → Nat → List Nat
+  | 0, _ => []
+  | f + 1, s => if s = 0 then [] else (s % 2 ^ 64) :: u64Digits f (s / 2 ^ 64)
+
+/-- `digits.iter().rev().fold(0u128, |acc, limb| (acc << 64) | *limb as u128)`: `acc << 64` on a
+`u128` drops the bits shifted out. -/
+def foldDigitsU128 (digits : List Nat) : Nat :=
+  digits.reverse.foldl (fun acc limb => ((acc <<< 64) % 2 ^ 128) ||| limb) 0
+
+/-- `BigUint::bits`. -/
+def bitLen (s : Nat) : Nat := if s = 0 then 0 else s.log2 + 1
+
+/-- The branch of `ForeignEccChip::mul_by_constant` (`scalar_as_big.bits() <= 128`). -/
+inductive MulConstBranch where
+  /-- `mul_by_u128(n, ·)` with the rebuilt `n` -/
+  | u128 (n : Nat)
+  /-- `msm_by_le_bits` of the constant bits (windowed msm) -/
+  | windowed (s : Nat)
+deriving Repr, BEq, DecidableEq
+
+def mulConstBranch (s : Nat) : MulConstBranch :=
+  if bitLen s ≤ 128 then .u128 (foldDigitsU128 (u64Digits 3 s)) else .windowed s
+
 /-- Outcome of an instruction: a point, or the constraint system is unsatisfiable. -/
 inductive Res where
   | ok (P : WPt)
